@@ -85,6 +85,9 @@ func (k *Checker) refreshLog(n *Node, st *raft.VerifState, view bool) {
 		if k.c.viol == nil {
 			k.checkQueries(n, st, x)
 		}
+		if k.c.viol == nil && changed {
+			k.checkHandedOut(n)
+		}
 	}
 }
 
